@@ -25,6 +25,7 @@ import ClairModel.Proofs.Jar
 import ClairModel.Proofs.RhelRepo
 import ClairModel.Proofs.DistScan
 import ClairModel.Proofs.LangScan
+import ClairModel.Gen.C02Tables
 
 -- every variable of a property statement is bound explicitly: a misspelt name is an error, not a new variable
 set_option autoImplicit false
@@ -1010,5 +1011,38 @@ theorem ruby_long_line_counterexample (l : Bytes) (h : l.length ≥ 65536) (rest
   simp [this]
 
 end langscan
+
+/-! ## Tables and expressions regenerated from the sources (Gen/C02Tables.lean) -/
+
+section tables
+open ClairModel.Gen
+
+/-- The jar model reads the priority lists, the accepted extensions, the
+    nesting limit and the section marker that the source reads today; the
+    file-name, manifest-version, gemspec, release-file and rpm file patterns in
+    the source are the expressions the models (`Jar.checkName`, `Jar.hasDigit`,
+    `LangScan.gemPick`/`matchAssign`, `DistScan.rhelTail`/`majorMinor`/
+    `edgeTail`/`parenWordAtEnd`, finding os-owned-files-outside-patterns) were
+    written against. A change of any of them in /repo stops this theorem. -/
+theorem c02_tables_tie :
+    C02Tables.jarGroupKeys = Jar.groupKeys ∧ C02Tables.jarArtifactKeys = Jar.artifactKeys ∧
+    C02Tables.jarVersionKeys = Jar.versionKeys ∧
+    C02Tables.jarValidExt = [".jar", ".war", ".ear", ".jpi", ".hpi"] ∧
+    C02Tables.jarMaxNesting = Jar.maxNesting ∧ C02Tables.jarMinSize = 22 ∧
+    Jar.asc C02Tables.jarNameHeader = Jar.sNameHeader ∧
+    C02Tables.jarNameRegexp = "([[:graph:]]+)-([[:digit:]][\\-.[:alnum:]]*(?:-SNAPSHOT)?)\\.jar" ∧
+    C02Tables.jarManifestVer = "[[:digit:]]+(\\.[[:digit:]]+)*" ∧
+    C02Tables.rubyGemspecPath = ".*/specifications/.+\\.gemspec" ∧
+    C02Tables.rubyNameLine = "^\\S+\\.\\s*name\\s*=\\s*(?P<name>\\S+)$" ∧
+    C02Tables.rubyVersionLine = "^\\S+\\.\\s*version\\s*=\\s*(?P<version>\\S+)$" ∧
+    C02Tables.rhelRelease = "Red Hat Enterprise Linux (?:Server|Atomic Host)?\\s*(?:release)?\\s*(\\d+)(?:\\.\\d)?" ∧
+    C02Tables.alpineIssue = "Alpine Linux ([[:digit:]]+\\.[[:digit:]]+)" ∧
+    C02Tables.alpineEdgeIssue = "Alpine Linux [[:digit:]]+\\.\\w+ \\(edge\\)" ∧
+    C02Tables.debianCodename = "\\(\\w+\\)$" ∧
+    C02Tables.rpmFilePatterns = ["^.*/[^/]+\\.jar$", "^.*/site-packages/[^/]+\\.egg-info/PKG-INFO$", "^.*/package.json$",
+      "^.*/[^/]+\\.gemspec$", "^/usr/s?bin/[^/]+$", "^/usr/libexec/[^/]+/[^/]+$"] := by
+  decide
+
+end tables
 
 end ClairModel.Props.C02
